@@ -116,7 +116,11 @@ var _lower = [256]byte{
 func containsKelvin(s string) bool {
 	// TODO: it might be faster to check with IndexNonASCII first
 	// then with Count.
-	return len(s) > 0 && indexRuneCase(s, '\u212A') != -1
+	//
+	// U+FFFD is the other 3 byte rune that is equal to a 1 byte rune (any
+	// invalid byte) so it must prevent the same length based shortcuts.
+	return len(s) > 0 && (indexRuneCase(s, '\u212A') != -1 ||
+		strings.Contains(s, "\uFFFD"))
 }
 
 // HasPrefix tests whether the string s begins with prefix ignoring case.
